@@ -9,6 +9,10 @@ Clauses
                 every offered termination halfway between atomic planes, minwidth / even / sizemults / vacuum
   fault         StackingFault(...).fault(...): atoms below the plane stay, atoms above move by exactly the requested
                 vector modulo the in-plane cell vectors; full lattice vectors restore the crystal
+  surface / fault carry object HISTORY: with a healthy share the judged surface() call is the second or third one on the
+                same FreeSurface / StackingFault object (other shift / shiftindex / vector, sizemults, minwidth, even,
+                vacuumwidth, fault position given or defaulted), with set_shift(), the faultpos_* and a?vect_uvw setters and
+                fault() calls in between; the LAST result is judged by the same oracles as a fresh object's
 """
 import functools
 import itertools
@@ -32,8 +36,12 @@ RULE = ("basis: every integer plane (hkl) with max|index| <= 3 (thorough: 4) x t
         "(2 for the oblique families), all three cutboxvector values, size multipliers as +/-int and (m,n) tuples, "
         "minwidth, even, vacuumwidth, every offered shiftindex; fault positions between atomic layers given as Cartesian "
         "or relative position at surface() or at fault(), fractional shifts a1,a2 in [-1.5,1.5], full lattice vectors, "
-        "outofplane, full faultshift vectors, user-chosen in-plane shift vectors.  Non-trivial: plane with >= 2 non-zero "
-        "indices in a non-cubic or centred cell.")
+        "outofplane, full faultshift vectors, user-chosen in-plane shift vectors.  History: in about 70 % of the surface / "
+        "fault cases one or two earlier surface() calls with other arguments (termination by index / vector / scaled vector / "
+        "set_shift() / not given, multipliers, minwidth, even, vacuum, fault position given or defaulted) were made on the same "
+        "object, with faultpos_rel / faultpos_cart / a1vect_uvw / a2vect_uvw setters and fault() calls between them; the last "
+        "surface() result and the fault() / iterfaultmap() outputs after it are judged as for a fresh object.  Non-trivial: "
+        "plane with >= 2 non-zero indices in a non-cubic or centred cell.")
 ASSUMPTIONS = [
     "numpy linear algebra is correct",
     "the table of primitive cell vectors per centring (pbt/oracles/surface_ref.PN, the standard choices used by "
@@ -51,6 +59,12 @@ ASSUMPTIONS = [
     "and must stay; atoms within 1e-9 of the plane but not exactly on it are exempt",
     "unit cells whose atomic layers along the plane normal are closer than 1e-4 A without coinciding (1e-9) are exempt "
     "from the layer-counting assertions",
+    "what persists between calls on one object is taken from the docstrings only: surface() without shift / shiftindex uses "
+    "'the current value set to the shift attribute' (last of constructor, set_shift(), an earlier surface()); set_shift() "
+    "without arguments selects shiftindex 0; sizemults, minwidth, even, vacuumwidth have per-call defaults ([1,1,1], none, "
+    "False, none); StackingFault.surface() without a fault position places it at 0.5 ('Default value is 0.5') whatever was set "
+    "before; a1vect_uvw / a2vect_uvw assigned through their setters stay in force (surface() does not mention them).  Whether a "
+    "fault position or shift vector passed to fault() outlives that call is not stated and never relied on",
     "System.rotate / supersize / wrap are decided by C04 / C05; box origin of the unit cell is zero (the translation "
     "convention of rotate for other origins is not fixed by the property)",
 ]
@@ -448,6 +462,75 @@ _width = st.integers(0, 4000).map(lambda k: round(1.0 + k / 100.0, 2))
 _vac = st.sampled_from([0.0, 5.0, 10.0, 7.25, 0.5, 12.345, 3.3])
 
 
+# ---- object history: earlier (un-judged) surface() calls on the same object, cheap arguments
+_mult_in_h = st.sampled_from([1, 1, 2, 2, -1, [0, 1], [-1, 1]])
+_mult_cut_h = st.sampled_from([1, 2, 3, 4, -1, -2])
+_width_h = st.integers(0, 1500).map(lambda k: round(1.0 + k / 100.0, 2))
+_hmode = st.sampled_from(['index', 'index', 'index', 'vector', 'scaled', 'none', 'set_shift', 'set_shift_vector', 'set_shift0'])
+_sel = st.integers(0, 1000)
+_nprior = st.sampled_from([0, 0, 0, 1, 1, 1, 1, 2, 2, 2])
+_relpos = st.sampled_from([0.25, 0.75, 0.4, 0.62, 0.1, 0.9, 0.0, 1.0, 0.5, 0.33])
+_final_shift = st.sampled_from(['index', 'index', 'index', 'vector', 'scaled', 'none', 'none', 'set_shift', 'set_shift_vector'])
+_surf_first = st.sampled_from(['index', 'index', 'vector', 'scaled', 'init', 'prev', 'prev', 'set_shift', 'set_shift_vector'])
+
+
+def _draw_step(draw, ci):
+    mults = [draw(_mult_in_h) for _ in range(3)]
+    mults[ci] = draw(_mult_cut_h)
+    return {'sizemults': mults if draw(_int10) < 7 else None,
+            'minwidth': draw(_width_h) if draw(_int10) < 2 else None,
+            'even': draw(_int10) < 2,
+            'vacuum': draw(_vac) if draw(_int10) < 3 else None,
+            'shiftsel': draw(_sel),
+            'shiftmode': draw(_hmode)}
+
+
+def shift_arg(obj, mode, idx, cur):
+    """surface() keywords selecting termination #idx in the given way (set_shift* modes act on the object at once);
+    returns (kw, index of the termination in force afterwards).  'none': nothing is passed, #cur stays in force"""
+    shifts = np.asarray(obj.shifts, dtype=float)
+    if mode == 'index':
+        return {'shiftindex': idx}, idx
+    if mode == 'vector':
+        return {'shift': [float(x) for x in shifts[idx]]}, idx
+    if mode == 'scaled':
+        rb = np.asarray(obj.rcell.box.vects, dtype=float)
+        return {'shift': [float(x) for x in np.linalg.solve(rb.T, shifts[idx])], 'shiftscale': True}, idx
+    if mode == 'set_shift':
+        obj.set_shift(shiftindex=idx)
+        return {}, idx
+    if mode == 'set_shift_vector':
+        obj.set_shift(shift=[float(x) for x in shifts[idx]])
+        return {}, idx
+    if mode == 'set_shift0':
+        obj.set_shift()                       # documented: neither shift nor shiftindex -> shiftindex 0
+        return {}, 0
+    return {}, cur
+
+
+def size_args(step):
+    kw = {}
+    if step['sizemults'] is not None:
+        kw['sizemults'] = [mult_arg(m) for m in step['sizemults']]
+    if step['minwidth'] is not None:
+        kw['minwidth'] = step['minwidth']
+    if step['even']:
+        kw['even'] = True
+    if step['vacuum'] is not None:
+        kw['vacuumwidth'] = float(step['vacuum'])
+    return kw
+
+
+def run_step(obj, step, cur, force_mode=None, force_idx=None, **extra):
+    """one earlier surface() call of a history (its result is not judged); returns (system, termination index in force)"""
+    nsh = len(obj.shifts)
+    idx = step['shiftsel'] % nsh if force_idx is None else force_idx
+    kw, cur = shift_arg(obj, force_mode or step['shiftmode'], idx, cur)
+    kw.update(size_args(step))
+    kw.update(extra)
+    return obj.surface(**kw), cur
+
+
 @st.composite
 def surface_cases(draw):
     u = draw(ucells())
@@ -455,13 +538,15 @@ def surface_cases(draw):
     ci = CUTIDX[cut]
     mults = [draw(_mult_in) for _ in range(3)]
     mults[ci] = draw(_mult_cut)
+    prior = [_draw_step(draw, ci) for _ in range(draw(_nprior))]
     case = {'ucell': u, 'hkl': hkl, 'cut': cut,
             'sizemults': mults if draw(_int10) < 8 else None,
             'minwidth': draw(_width) if draw(_int10) < 4 else None,
             'even': draw(_int10) < 3,
             'vacuum': draw(_vac) if draw(_int10) < 5 else None,
             'shiftsel': draw(st.integers(0, 1000)),
-            'shiftmode': draw(st.sampled_from(['index', 'index', 'index', 'vector', 'scaled', 'init']))}
+            'shiftmode': draw(_surf_first),
+            'history': {'prior': prior}}
     return case
 
 
@@ -746,6 +831,41 @@ def oracle_surface(case):
         which = sorted({0, nsh - 1, a, (a * 7 + 3) % nsh})
     if case['shiftmode'] == 'init':
         which = [None] + which[1:]
+    # ---- object history: earlier surface() calls with other arguments on the same object (results not judged)
+    hist = case.get('history')
+    prior = (hist or {}).get('prior') or []
+    smode = case['shiftmode']
+    if hist is not None and smode != 'init':
+        a = case['shiftsel'] % nsh
+        which = [a] + [i for i in which if i != a]
+    if smode == 'prev' and not prior:
+        smode = 'set_shift'
+    cur = 0                                   # constructor: shiftindex 0 (passed, or the documented default)
+    for j, step in enumerate(prior):
+        if smode == 'init':
+            _, cur = run_step(fs, step, cur, force_mode='none')          # the constructor's choice must survive
+        elif smode == 'prev' and j == len(prior) - 1:
+            pm = step['shiftmode'] if step['shiftmode'] in ('index', 'vector', 'scaled', 'set_shift') else 'index'
+            _, cur = run_step(fs, step, cur, force_mode=pm, force_idx=which[0])
+        else:
+            _, cur = run_step(fs, step, cur)
+        if step['shiftmode'].startswith('set_shift') and smode != 'init':
+            labels.add('history_set_shift')
+    if prior:
+        what = '%s [after %d earlier surface() calls on the same object: %s]' % (
+            what, len(prior), ' ; '.join(', '.join('%s=%r' % kv for kv in sorted(p.items())) for p in prior))
+        labels.add('history_second_surface')
+        if len(prior) > 1:
+            labels.add('history_third_surface')
+        if smode in ('init', 'prev'):
+            labels.add('history_shift_persisted')
+        if ((case['sizemults'] is None and any(p['sizemults'] is not None for p in prior))
+                or (case['minwidth'] is None and any(p['minwidth'] is not None for p in prior))
+                or (not case['even'] and any(p['even'] for p in prior))
+                or any(p['vacuum'] for p in prior)):
+            labels.add('history_defaults_after_given')
+    if smode.startswith('set_shift'):
+        labels.add('history_set_shift')
     first = True
     for si in which:
         kw = {}
@@ -756,18 +876,16 @@ def oracle_surface(case):
         if case['even']:
             kw['even'] = True
         ii = 0 if si is None else si
-        mode = case['shiftmode'] if first else 'index'
-        if si is None:
-            pass
-        elif mode == 'vector':
-            kw['shift'] = [float(x) for x in shifts[ii]]
-        elif mode == 'scaled':
-            rb = np.asarray(fs.rcell.box.vects, dtype=float)
-            kw['shift'] = [float(x) for x in np.linalg.solve(rb.T, shifts[ii])]
-            kw['shiftscale'] = True
+        mode = smode if first else 'index'
+        pre = ''
+        if si is None or mode == 'prev':
+            assert cur == ii, (cur, ii)       # nothing passed: the termination in force (constructor / earlier call) stays
         else:
-            kw['shiftindex'] = ii
-        w2 = '%s.surface(%s)' % (what, ', '.join('%s=%r' % kv for kv in sorted(kw.items())))
+            skw, cur = shift_arg(fs, mode, ii, cur)
+            kw.update(skw)
+            if mode.startswith('set_shift'):
+                pre = '.%s(#%d)' % (mode, ii)
+        w2 = '%s%s.surface(%s)' % (what, pre, ', '.join('%s=%r' % kv for kv in sorted(kw.items())))
         system = fs.surface(**dict(kw, sizemults=list(kw['sizemults'])) if 'sizemults' in kw else kw)
         Bs = np.asarray(system.box.vects, dtype=float)
         got = Bs[ci, ci] / geo.B0[ci, ci]
@@ -845,6 +963,7 @@ _cutmult_f = st.sampled_from([1, 2, 2, 3, 3, 4, 5, -2, -3])
 _combo = st.sampled_from([[[1, 0], [0, 1]], [[1, 1], [0, 1]], [[1, 0], [1, 1]], [[0, 1], [-1, 0]], [[2, 0], [0, 1]],
                           [[1, -1], [1, 1]], [[-1, 0], [0, -1]], [[1, 2], [0, 1]]])
 _outs = st.sampled_from([0.5, -0.3, 1.25, 0.1])
+_custom_where = st.sampled_from(['init', 'fault', 'fault', 'setter', 'setter'])
 
 
 @st.composite
@@ -870,8 +989,27 @@ def fault_cases(draw):
         sh['vec'] = [draw(_frac15) * 2.0 for _ in range(3)]
     custom = None
     if draw(_int10) < 3:
-        custom = {'combo': draw(_combo), 'where': draw(st.sampled_from(['init', 'fault', 'fault'])),
-                  'bad': draw(_int10) < 2}
+        custom = {'combo': draw(_combo), 'where': draw(_custom_where),
+                  'bad': draw(_int10) < 2, 'at': draw(_int10)}
+    # object history: earlier surface() calls (other arguments, fault position given or defaulted), setters / fault() between
+    prior = []
+    for _ in range(draw(_nprior)):
+        step = _draw_step(draw, ci)
+        step['fpos'] = draw(_relpos) if draw(_int10) < 4 else None
+        k = draw(_int10)
+        if k < 2:
+            step['after'] = {'op': 'set_rel', 'v': draw(_relpos)}
+        elif k < 4:
+            step['after'] = {'op': 'set_cart', 'v': draw(_relpos)}
+        elif k < 6:
+            step['after'] = {'op': 'fault', 'a1': draw(_frac15), 'a2': draw(_frac15),
+                             'fpos': draw(_relpos) if draw(_bool) else None}
+        else:
+            step['after'] = None
+        prior.append(step)
+    history = {'prior': prior, 'final_shift': draw(_final_shift),
+               'pre_fault': {'a1': draw(_frac15), 'a2': draw(_frac15), 'fpos': draw(_relpos) if draw(_bool) else None}
+               if draw(_int10) < 3 else None}
     fmode = draw(st.sampled_from(['default', 'default', 'cart', 'cart', 'rel', 'rel']))
     even = draw(_int10) < 3
     minwidth = draw(_width) if draw(_int10) < 3 else None
@@ -902,7 +1040,8 @@ def fault_cases(draw):
             'shift': sh, 'custom': custom,
             'minimum_r': draw(st.sampled_from([1.5, 2.5, 0.8])) if draw(_int10) < 1 else None,
             'itermap': [draw(st.integers(1, 3)), draw(st.integers(1, 3))] if draw(_int10) < 2 else None,
-            'outside': draw(_int10) < 1}
+            'outside': draw(_int10) < 1,
+            'history': history}
 
 
 def cluster_layers(x, tol):
@@ -985,10 +1124,78 @@ def oracle_fault(case):
                 return labels
             require(not custom['bad'], lambda: '%s accepted a shift vector %r that leaves the plane' % (what, cust_kw['a1vect_uvw']))
             cust_kw = {}
+    # ---- object history: earlier surface() calls on the same object, setters and fault() calls in between (not judged)
+    hist = case.get('history') or {}
+    prior = hist.get('prior') or []
+    setter_at = custom['at'] % (len(prior) + 1) if custom is not None and custom['where'] == 'setter' else None
+
+    def apply_setter():
+        try:
+            sf.a1vect_uvw = cust_kw['a1vect_uvw']
+            sf.a2vect_uvw = cust_kw['a2vect_uvw']
+        except ValueError as e:
+            require(custom['bad'] and 'not in fault plane' in str(e), lambda: '%s: assigning %r raised ValueError(%s)' % (what, cust_kw, e))
+            labels.update({'refusal_avect', 'nt'} if is_nt_plane(cell, h3) else {'refusal_avect'})
+            return False
+        require(not custom['bad'], lambda: '%s: a1vect_uvw = %r, a shift vector that leaves the plane, was accepted' % (what, cust_kw['a1vect_uvw']))
+        labels.add('history_setter_avect')
+        return True
+
+    cur = 0                       # constructor without shift / shiftindex: shiftindex 0 (documented)
+    explicit_pos = False
+    prev_natoms = None
+    for j, step in enumerate(prior):
+        if setter_at == j:
+            if not apply_setter():
+                return labels
+            cust_kw = {}
+        extra = {}
+        if step.get('fpos') is not None:
+            extra['faultpos_rel'] = step['fpos']
+            explicit_pos = True
+        psys, cur = run_step(sf, step, cur, **extra)
+        prev_natoms = psys.natoms
+        if step['shiftmode'].startswith('set_shift'):
+            labels.add('history_set_shift')
+        after = step.get('after')
+        if after is not None:
+            po = float(psys.box.origin[ci])
+            pw = float(psys.box.vects[ci, ci])
+            if after['op'] == 'set_rel':
+                sf.faultpos_rel = after['v']
+                labels.add('history_setter_faultpos')
+                explicit_pos = True
+            elif after['op'] == 'set_cart':
+                sf.faultpos_cart = po + min(max(after['v'], 0.02), 0.98) * pw
+                labels.add('history_setter_faultpos')
+                explicit_pos = True
+            else:
+                fk = {'a1': after['a1'], 'a2': after['a2']}
+                if after['fpos'] is not None:
+                    fk['faultpos_rel'] = after['fpos']
+                    explicit_pos = True
+                sf.fault(**fk)
+                labels.add('history_fault_between')
+    if setter_at == len(prior):
+        if not apply_setter():
+            return labels
+        cust_kw = {}
+    if prior:
+        what = '%s [after %d earlier surface() calls on the same object: %s]' % (
+            what, len(prior), ' ; '.join(', '.join('%s=%r' % kv for kv in sorted(p.items())) for p in prior))
+        labels.add('history_second_surface')
+        if len(prior) > 1:
+            labels.add('history_third_surface')
     # ---- base system
     sm = case['sizemults']
     nsh = len(sf.shifts)
-    kw = {'shiftindex': case['shiftsel'] % nsh}
+    fshift = hist.get('final_shift', 'index')
+    kw, cur = shift_arg(sf, fshift, case['shiftsel'] % nsh, cur)
+    if fshift.startswith('set_shift'):
+        labels.add('history_set_shift')
+        what = '%s.%s(#%d)' % (what, fshift, cur)
+    elif fshift == 'none' and prior:
+        labels.add('history_shift_persisted')
     if sm is not None:
         kw['sizemults'] = [mult_arg(m) for m in sm]
     if case['minwidth'] is not None:
@@ -997,8 +1204,14 @@ def oracle_fault(case):
         kw['even'] = True
     if case['vacuum'] is not None:
         kw['vacuumwidth'] = float(case['vacuum'])
-    base_sys = sf.surface(**kw)
     w0 = '%s.surface(%s)' % (what, ', '.join('%s=%r' % kv for kv in sorted(kw.items())))
+    base_sys = sf.surface(**dict(kw, sizemults=list(kw['sizemults'])) if 'sizemults' in kw else kw)
+    sh_now = np.asarray(sf.shift, dtype=float)
+    sh_exp = np.asarray(sf.shifts, dtype=float)[cur]
+    require(sh_now.shape == (3,) and np.abs(sh_now - sh_exp).max() <= 1e-9 * geo.L,
+            lambda: '%s: shift attribute %r, the termination in force is shifts[%d] = %r' % (w0, sh_now.tolist(), cur, sh_exp.tolist()))
+    if prev_natoms is not None and prev_natoms != base_sys.natoms:
+        labels.add('history_natoms_changed')
     B = np.array(base_sys.box.vects, dtype=float)
     o = np.array(base_sys.box.origin, dtype=float)
     base = np.array(base_sys.atoms.pos, dtype=float)
@@ -1027,7 +1240,9 @@ def oracle_fault(case):
         else:
             raise Violation('%s.fault(a1=0.5, %r): a fault position outside the system was accepted' % (w0, bad))
     if mode == 'default':
-        fpv = float(o[ci] + 0.5 * width)
+        fpv = float(o[ci] + 0.5 * width)          # surface(): 'Default value is 0.5', whatever was set on the object before
+        if prior:
+            labels.add('history_faultpos_defaulted_after_set' if explicit_pos else 'history_faultpos_defaulted_after_default')
     else:
         if len(Lx) >= 2:
             gi = fp['gapsel'] % (len(Lx) - 1)
@@ -1063,6 +1278,14 @@ def oracle_fault(case):
         expected = np.zeros(3)
     if case['minimum_r'] is not None:
         skw['minimum_r'] = case['minimum_r']
+    pf = hist.get('pre_fault')
+    if pf is not None:
+        # an earlier fault() on the final surface; it may move the fault plane only when the judged call places its own
+        pk = {'a1': pf['a1'], 'a2': pf['a2']}
+        if pf['fpos'] is not None and fkw:
+            pk['faultpos_rel'] = pf['fpos']
+        sf.fault(**pk)
+        labels.add('history_pre_fault')
     allkw = dict(skw, **fkw, **cust_kw)
     w1 = '%s.fault(%s)' % (w0, ', '.join('%s=%r' % (k_, v.tolist() if isinstance(v, np.ndarray) else v) for k_, v in sorted(allkw.items())))
     try:
